@@ -64,6 +64,40 @@ var sessionCatalogue = []string{
 	`(str 1)`, `(len [1 2])`, `(type? 1)`, `(first [1 2])`, `(println)`,
 	`(begin (def arr [1 2 3]) (aset arr 0 9) arr)`,
 	`(eval (quote (+ 1 2)))`, `(eval (read "(+ 1 2) "))`, `(stop)`, `(aget [1] 5)`, `unbound%d`,
+	// assignment forms: prefix, infix position inside a list, several targets, through an index / a field
+	`(begin (def ma%d 0) (def mb%d 0) (ma%d mb%d = 1 2))`,
+	`(begin (def ma%d 0) (def mb%d 0) (def mc%d 0) (ma%d mb%d mc%d = 1 2 3) (list ma%d mb%d mc%d))`,
+	`(na%d = 5)`, `(nb%d := 5)`, `(= nc%d 5)`, `(:= nd%d 5)`,
+	`(begin (def z%d 1) (z%d = 2) z%d)`,
+	`(mdef md%d me%d mf%d (list 1 2 3))`,
+	`(mdef mg%d mh%d [1 2])`,
+	`{a := [1 2 3]; a[1] = 7; a}`, `{h := (hash a: 1); h.a = 5; h.a}`,
+	`{p%d, q%d = 1, 2}`, `{p%d, q%d := 1, 2; p%d + q%d}`,
+	`{n := 0; n++; n}`, `{n := 5; n--}`, `{n := 1; n += 2}`, `{n := 1; n -= 2; n}`,
+	`{2 ** 3}`, `{not true}`, `{1 < 2 and 2 < 3}`, `{7 mod 2}`, `{1 < 2 or 2 < 1}`, `{-3 + 1}`,
+	`(begin (def ar%d [1 2 3]) (defn g%d [] { ar%d[2] = 11 } 5) (+ 100 (g%d)))`,
+	`(begin (defn g%d [] { 1 + 2 } 5) (+ 100 (g%d)))`,
+	`(begin (def hh%d (hash a: 1)) (defn g%d [] { hh%d.a = 11 } 5) (+ 100 (g%d)))`,
+	`(begin (defn g%d [] { q := 3 } { q + 1 }) (g%d))`,
+	`(begin (def ar%d [1 2 3]) (set (arrayidx ar%d [0]) 9) ar%d)`,
+	`(begin (def hs%d (hash a: 1)) (set hs%d.a 4) hs%d.a)`,
+	`(begin (func fw%d [a:int64 b:int64] [n:int64] (return (- a b))) (fw%d b: 1 a: 5))`,
+	`(begin (func fx%d [a:int64 b:int64] [n:int64] (return (- a b))) (def r%d (fx%d b: 1 a: 5)) r%d)`,
+	`(begin (func fy%d [a:int64 b:int64] [n:int64] (return (- a b))) (+ 1 (fy%d b: 1 a: 5)))`,
+	`(expectError "Error calling 'aget': Array index out of bounds" (aget [1] 5))`,
+	`(sliceOf int64)`, `(_ls)`, `(: a (hash a: 1))`,
+	`(for outer: [(def i 0) (< i 2) (def i (+ i 1))] (for [(def j 0) (< j 2) (def j (+ j 1))] (break outer:)))`,
+	`{ outer: for i := 0; i < 2; i++ { for j := 0; j < 2; j++ { break outer } } }`,
+	`(for [(def i 0) (< i 2) (def i (+ i 1))] (package "lp%d" { A := 1; (break) }))`,
+	`(begin (defn pf%d [n] (package "pp%d" { A := n; (cond (<= n 0) 1 (pf%d (- n 1))) })) (def pr%d (pf%d 2)) (+ 0 pr%d.A))`,
+	`(begin (defn pg%d [n] (cond (<= n 0) 1 (package "pq%d" { A := n; (pg%d (- n 1)) }))) (def ps%d (pg%d 2)) (+ 0 ps%d.A))`,
+	`(for [(def i 0) (< i 3) (def i (+ i 1))] (package "lq%d" { A := 1; (cond (== i 1) (continue) nil) }))`,
+	`#goapply ga%d 3 :: (defn ga%d [x] (+ x 1))`,
+	`#goapply gb%d 2 :: (defn gb%d [n] (cond (<= n 0) 0 (gb%d (- n 1))))`,
+	`#goapply gc%d 2 :: (defn gc%d [n] (for [(def i 0) (< i n) (def i (+ i 1))] (let [q i] (cond (== q 1) (break) nil))) n)`,
+	`(begin (defn rt%d [a] (return a) 5) (rt%d 3))`,
+	`(begin (defn rv%d [a] (for [(def i 0) (< i 3) (def i (+ i 1))] (cond (== i a) (return i) nil)) 9) (rv%d 1))`,
+	`(begin (defn rw%d [a] (let [x a] (newScope (return x))) 9) (rw%d 1))`,
 }
 
 type sessEv struct {
@@ -123,13 +157,74 @@ func quiet(fn func()) {
 	fn()
 }
 
+// A catalogue entry "#goapply NAME ARG :: SETUP" is an evaluation entered through the Go API: SETUP is
+// evaluated as text, then the host calls env.Apply on the function NAME with the integer ARG. In text
+// (for the twin interpreter, which evaluates all pieces together) it reads SETUP (NAME ARG).
+func goApplyParts(t string) (name string, arg int64, setup string, ok bool) {
+	if !strings.HasPrefix(t, "#goapply ") {
+		return
+	}
+	rest := strings.TrimPrefix(t, "#goapply ")
+	i := strings.Index(rest, " :: ")
+	if i < 0 {
+		return
+	}
+	var a int64
+	if _, err := fmt.Sscanf(rest[:i], "%s %d", &name, &a); err != nil {
+		return
+	}
+	return name, a, rest[i+4:], true
+}
+
+func asText(t string) string {
+	if name, arg, setup, ok := goApplyParts(t); ok {
+		return fmt.Sprintf("%s\n(%s %d)", setup, name, arg)
+	}
+	return t
+}
+
+func evalEntry(env *zygo.Zlisp, t string) outcome {
+	name, arg, setup, ok := goApplyParts(t)
+	if !ok {
+		return evalSafe(env, t+"\n")
+	}
+	if o := evalSafe(env, setup+"\n"); o.Kind != "val" {
+		return o
+	}
+	f, found := env.FindObject(name)
+	fn, isFn := f.(*zygo.SexpFunction)
+	if !found || !isFn {
+		return outcome{Kind: "err", Err: "goapply: no such function"}
+	}
+	var o outcome
+	func() {
+		zygo.VerifSetBudget(defaultBudget)
+		defer zygo.VerifSetBudget(-1)
+		defer func() {
+			if r := recover(); r != nil {
+				o = outcome{Kind: "panic", Err: fmt.Sprint(r)}
+			}
+		}()
+		v, err := env.Apply(fn, []zygo.Sexp{&zygo.SexpInt{Val: arg}})
+		switch {
+		case err != nil:
+			o = outcome{Kind: "err", Err: err.Error()}
+		case v == nil:
+			o = outcome{Kind: "nilres"}
+		default:
+			o = outcome{Kind: "val", Val: v}
+		}
+	}()
+	return o
+}
+
 func runSession(id string, texts []string, twin bool) sessCase {
 	c := sessCase{ID: id, Kind: "seq", AllVal: true}
 	quiet(func() {
 		env := newSessEnv()
 		for _, t := range texts {
 			ev := sessEv{Text: t, Before: depthsOf(env)}
-			o := evalSafe(env, t+"\n")
+			o := evalEntry(env, t)
 			ev.Out = printedOutcome(env, o)
 			ev.After = depthsOf(env)
 			if o.Kind != "val" {
@@ -146,7 +241,7 @@ func runSession(id string, texts []string, twin bool) sessCase {
 			// the twin uses its own unique numbers: type names are registered process-wide
 			var t2 []string
 			for _, t := range texts {
-				t2 = append(t2, uidRe.ReplaceAllStringFunc(t, func(m string) string { return "9" + m }))
+				t2 = append(t2, uidRe.ReplaceAllStringFunc(asText(t), func(m string) string { return "9" + m }))
 			}
 			o := evalSafe(env2, strings.Join(t2, "\n")+"\n")
 			c.Together = printedOutcome(env2, o)
@@ -162,7 +257,7 @@ func runGrowth(id, text string, reps int) sessCase {
 		env := newSessEnv()
 		for i := 0; i < reps; i++ {
 			before := depthsOf(env)
-			o := evalSafe(env, text+"\n")
+			o := evalEntry(env, text)
 			if i == 0 || i == reps-1 || o.Kind != "val" {
 				c.Evs = append(c.Evs, sessEv{Text: text, Out: printedOutcome(env, o), Before: before, After: depthsOf(env), Empty: []any{"skipped"}, After2: depthsOf(env)})
 			}
@@ -235,6 +330,11 @@ func collectListings(idp string, text string, seen map[string]bool) []listingCas
 			if l == nil {
 				continue
 			}
+			if l.Name == "__main" && f != env.VerifMainFunction() {
+				// the top-level buffer of a duplicated interpreter (macro bodies, builders that evaluate
+				// their arguments): where its chunks begin and end is not known here
+				continue
+			}
 			if l.Name == "__main" {
 				chunk := *l
 				if mainBefore <= len(chunk.Instrs) {
@@ -300,7 +400,7 @@ func init() {
 			// every catalogue form, plus generated core-language programs
 			for i, t := range cat {
 				if c.mine(idx) {
-					for _, l := range collectListings(fmt.Sprintf("L%d", i), inst(t, 100000+i), seen) {
+					for _, l := range collectListings(fmt.Sprintf("L%d", i), asText(inst(t, 100000+i)), seen) {
 						w.write(l)
 					}
 				}
